@@ -67,6 +67,18 @@ fn serialize_range_mappings(sm: &SourceMap) -> Option<String> {
     let mut rmi_data = Vec::<u8>::new();
 
     for (idx, token) in sm.tokens().enumerate() {
+        while token.get_dst_line() != prev_line {
+            if had_rmi {
+                encode_rmi(&mut buf, &rmi_data);
+                rmi_data.clear();
+            }
+
+            buf.push(b';');
+            prev_line += 1;
+            had_rmi = false;
+            idx_of_first_in_line = idx;
+        }
+
         if token.is_range() {
             had_rmi = true;
             empty = false;
@@ -79,18 +91,6 @@ fn serialize_range_mappings(sm: &SourceMap) -> Option<String> {
 
             let rmi_bits = rmi_data.view_bits_mut::<Lsb0>();
             rmi_bits.set(num, true);
-        }
-
-        while token.get_dst_line() != prev_line {
-            if had_rmi {
-                encode_rmi(&mut buf, &rmi_data);
-                rmi_data.clear();
-            }
-
-            buf.push(b';');
-            prev_line += 1;
-            had_rmi = false;
-            idx_of_first_in_line = idx;
         }
     }
     if empty {
